@@ -502,6 +502,119 @@ Proof.
     split; [intro X; now left|intros [X|[[] _]]; exact X].
 Qed.
 
+(* ---------- completed effects of a batch ---------- *)
+Ltac shp := right; eexists _, _, _, _; split; [reflexivity|]; split; [eassumption|];
+  refine (conj _ (conj eq_refl _)); [reflexivity|split].
+
+Lemma step_shape c j :
+  stepN c j = c \/
+  exists t a rest t', nth_error (cthreads c) j = Some t /\ tprog t = a :: rest /\ tprog t' = rest /\
+    cthreads (stepN c j) = set_nth j t' (cthreads c) /\
+    (forall d, a = TPublishBlob d -> has (cfs (stepN c j)) (FBlob d)) /\
+    (forall d r, a = TTagMem d r -> In d (cdigs (stepN c j))).
+Proof.
+  unfold sched_step. destruct (nth_error (cthreads c) j) as [t|] eqn:En; [|now left].
+  unfold fire. destruct (tprog t) as [|a rest] eqn:Ep; [now left|].
+  destruct a; cbv beta iota zeta.
+  - shp; intros; discriminate.
+  - shp; [|intros; discriminate].
+    intros d0 E. injection E as <-. unfold has, set_file. cbn [cfs files]. rewrite upd_same. discriminate.
+  - shp; intros; discriminate.
+  - shp; [intros; discriminate|].
+    intros d0 r0 E. injection E as <- _. cbn [cdigs]. apply dig_add_self.
+  - shp; intros; discriminate.
+  - destruct (clock c); [now left|]. shp; intros; discriminate.
+  - destruct (tsnap t); shp; intros; discriminate.
+  - shp; intros; discriminate.
+Qed.
+
+Lemma step_digs c j d : In d (cdigs c) -> In d (cdigs (stepN c j)).
+Proof.
+  intro Hd. unfold sched_step. destruct (nth_error (cthreads c) j) as [t|]; [|exact Hd].
+  unfold fire. destruct (tprog t) as [|a rest]; [exact Hd|].
+  destruct a; cbv beta iota zeta; cbn [cdigs]; try exact Hd.
+  - now apply (dig_add_incl H).
+  - destruct (clock c); exact Hd.
+  - destruct (tsnap t); exact Hd.
+Qed.
+
+(* what a thread's program was going to publish / enter is pending or done *)
+Definition DoneInv (p0 : list (list act)) (c : conf) : Prop :=
+  forall i q, nth_error p0 i = Some q ->
+    (forall d, In (TPublishBlob d) q ->
+       (exists t, nth_error (cthreads c) i = Some t /\ In (TPublishBlob d) (tprog t)) \/ has (cfs c) (FBlob d)) /\
+    (forall d r, In (TTagMem d r) q ->
+       (exists t, nth_error (cthreads c) i = Some t /\ In (TTagMem d r) (tprog t)) \/ In d (cdigs c)).
+
+Lemma done_step p0 c j : DoneInv p0 c -> DoneInv p0 (stepN c j).
+Proof.
+  intros P i q Eq. destruct (P i q Eq) as [P1 P2]. split.
+  - intros d Hd. destruct (P1 d Hd) as [(u & Eu & Hin)|Hh]; [|right; now apply step_grows].
+    destruct (step_shape c j) as [->|(t & a & rest & t' & En & Ep & Ep' & Ec & Hp & _)]; [left; now exists u|].
+    rewrite Ec. destruct (Nat.eq_dec j i) as [->|Hn].
+    + rewrite En in Eu. injection Eu as <-. rewrite Ep in Hin. destruct Hin as [E|Hin].
+      * right. now apply Hp.
+      * left. exists t'. split; [now apply (nth_set_same _ i t)|now rewrite Ep'].
+    + left. exists u. split; [rewrite nth_set_other by exact Hn; exact Eu|exact Hin].
+  - intros d r Hd. destruct (P2 d r Hd) as [(u & Eu & Hin)|Hh]; [|right; now apply step_digs].
+    destruct (step_shape c j) as [->|(t & a & rest & t' & En & Ep & Ep' & Ec & _ & Hp)]; [left; now exists u|].
+    rewrite Ec. destruct (Nat.eq_dec j i) as [->|Hn].
+    + rewrite En in Eu. injection Eu as <-. rewrite Ep in Hin. destruct Hin as [E|Hin].
+      * right. now apply (Hp d r).
+      * left. exists t'. split; [now apply (nth_set_same _ i t)|now rewrite Ep'].
+    + left. exists u. split; [rewrite nth_set_other by exact Hn; exact Eu|exact Hin].
+Qed.
+
+Lemma done_sched p0 is : forall c, DoneInv p0 c -> DoneInv p0 (sched shuffle c is).
+Proof. induction is as [|i is IH]; intros c P; [exact P|]. cbn [sched fold_left]. apply IH. now apply done_step. Qed.
+
+Lemma save_has_dig tags digs d : In d digs -> exists r, In (d, r) (save tags digs).
+Proof.
+  intro Hd. destruct (existsb (fun e : N * N => snd e =? d) tags) eqn:E.
+  - apply existsb_exists in E as ([r n] & Hin & He). cbn in He. apply N.eqb_eq in He. subst n.
+    exists (Some r). now apply save_tagged.
+  - exists None. apply save_untagged. split; [exact Hd|]. intros r Hr.
+    assert (X : existsb (fun e : N * N => snd e =? d) tags = true).
+    { apply existsb_exists. exists (r, d). split; [exact Hr|]. cbn. apply N.eqb_refl. }
+    congruence.
+Qed.
+
+Lemma nth_map_inv {A B} (f : A -> B) l : forall i q, nth_error (map f l) i = Some q -> exists t, nth_error l i = Some t /\ f t = q.
+Proof.
+  induction l as [|x l IH]; intros i q E; [destruct i; discriminate|].
+  destruct i; cbn in E; [injection E as <-; now exists x|]. now apply IH.
+Qed.
+
+(* a Push that has returned: the blob is there, and a manifest has its entry in index.json,
+   whatever else ran at the same time *)
+Theorem conc_completed_push s calls is i d cont man :
+  Inv H s -> Agree s ->
+  let c := sched shuffle (start H s calls) is in
+  nth_error calls i = Some (CPush d cont man) -> H cont = d -> quiet c ->
+  has (cfs c) (FBlob d) /\
+  (exists_file (sfs s) (FBlob d) = false -> man = true ->
+   exists l r, read_index (cfs c) = Some l /\ In (d, r) l).
+Proof.
+  intros I A c Ei Hc Q.
+  set (p0 := map (fun t => tprog t) (cthreads (start H s calls))).
+  assert (D0 : DoneInv p0 (start H s calls)).
+  { intros j q Eq. unfold p0 in Eq. apply nth_map_inv in Eq as (t & Et & <-).
+    split; [intros d0 Hd|intros d0 r0 Hd]; left; exists t; now split. }
+  pose proof (done_sched p0 is _ D0) as D. fold c in D.
+  assert (E0 : nth_error p0 i = Some (call_prog H (sfs s) (stags s) (CPush d cont man))).
+  { unfold p0. cbn [start cthreads]. rewrite map_map. cbn [tprog]. now apply map_nth_error. }
+  destruct (D i _ E0) as [D1 D2]. cbn [call_prog] in D1, D2.
+  destruct (exists_file (sfs s) (FBlob d)) eqn:Ex.
+  - split; [|discriminate]. apply (sched_grows shuffle is (start H s calls)). cbn [start cfs]. now apply exists_file_true.
+  - apply N.eqb_eq in Hc. unfold push_prog in D1, D2. rewrite Hc in D1, D2. split.
+    + destruct (D1 d) as [(t & Et & Hin)|Hh]; [apply in_or_app; right; now left| |exact Hh].
+      rewrite (Q t (nth_error_In _ _ Et)) in Hin. destruct Hin.
+    + intros _ ->. destruct (D2 d None) as [(t & Et & Hin)|Hd]; [apply in_or_app; right; right; now left| |].
+      * rewrite (Q t (nth_error_In _ _ Et)) in Hin. destruct Hin.
+      * destruct (quiet_synced s calls is A Q) as (l & Hl & Hs). fold c in Hl, Hs. cbn [st_of sfs stags sdigs] in Hl, Hs.
+        destruct (save_has_dig (ctags c) (cdigs c) d Hd) as (r & Hr). exists l, r. split; [exact Hl|now apply Hs].
+Qed.
+
 (* ---------- alternating phases ---------- *)
 Lemma phases_inv ps : forall s,
   Inv H s -> Agree s -> phases_quiet H shuffle false false s ps = true ->
@@ -555,6 +668,23 @@ Proof.
   split.
   - intros o k. apply op_safe; [exact Hs|exact I].
   - intros calls is. exact (conc_safe_from H shuffle Hs s calls is I).
+Qed.
+
+Theorem conc_completed_push_src :
+  forall (H : list N -> N) (shuffle : nat -> list entry -> list entry),
+    (forall c l e, In e (shuffle c l) <-> In e l) ->
+    forall (ps : list phase) (calls : list ccall) (is : list nat) (i : nat) (d : N) (cont : list N) (man : bool),
+      phases_quiet H shuffle src_inplace src_unlink_first init ps = true ->
+      let s := run_phases H shuffle src_inplace src_unlink_first init ps in
+      let c := sched shuffle (start H s calls) is in
+      nth_error calls i = Some (CPush d cont man) -> H cont = d -> quietb c = true ->
+      has (cfs c) (FBlob d) /\
+      (exists_file (sfs s) (FBlob d) = false -> man = true ->
+       exists l r, read_index (cfs c) = Some l /\ In (d, r) l).
+Proof.
+  rewrite src_inplace_false, src_unlink_first_false. intros H shuffle Hs ps calls is i d cont man Q s c Ei Hc Qc.
+  destruct (phases_synced H shuffle Hs ps Q) as [I A].
+  exact (conc_completed_push H shuffle Hs s calls is i d cont man I A Ei Hc (quietb_quiet c Qc)).
 Qed.
 
 (* without indexLock (two saveIndex calls interleave: the earlier snapshot is published last) the
